@@ -440,6 +440,8 @@ def apply_row_edits_sut(row, edits):
             row.get_values()
             row.get_cell(e["x"])
             list(row.traverse())
+        elif k == "clear":
+            row.clear()
         else:
             raise ValueError(k)
 
@@ -472,6 +474,8 @@ def apply_row_edits_model(cells, edits):
             Grid.row_rstrip(cells, e.get("aggressive", False))
         elif k == "read":
             pass
+        elif k == "clear":
+            del cells[:]
         else:
             raise ValueError(k)
 
@@ -558,7 +562,15 @@ def apply_sut(sut: TableSUT, op, aux):
     elif n == "clear":
         t.clear()
     elif n == "row_edit":
-        row = t.get_row(yarg(op))
+        via = op.get("via", "get_row")
+        if via == "get_row":
+            row = t.get_row(yarg(op))
+        elif via == "get_rows":
+            row = t.get_rows()[op["y"]]
+        elif via == "rows":
+            row = t.rows[op["y"]]
+        else:
+            row = list(t.traverse())[op["y"]]
         apply_row_edits_sut(row, op["edits"])
         aux["k"] = row.repeated or 1
         push = op["push"]
@@ -605,6 +617,32 @@ def apply_sut(sut: TableSUT, op, aux):
         aux["ret"] = t.set_span(area_of(op["area"]), merge=op.get("merge", False))
     elif n == "del_span":
         aux["ret"] = t.del_span(coord_of(op["c"]))
+    elif n == "live_row_op":
+        if t.height:
+            apply_row_edits_sut(t.get_row(op["y"], clone=False), op["edits"])
+    elif n == "extend_rows_odd":
+        how = op["how"]
+        if how == "fails":
+            class _Deliberate(Exception):
+                pass
+
+            def gen():
+                for i, r in enumerate(op["rows"]):
+                    if i == op["k"]:
+                        raise _Deliberate("iterable failed")
+                    yield mk_row(r)
+                if op["k"] >= len(op["rows"]):
+                    raise _Deliberate("iterable failed")
+
+            try:
+                t.extend_rows(gen())
+            except _Deliberate:
+                aux["caller_caught"] = True  # the caller catches its own exception and carries on
+        elif how == "same_object":
+            row = mk_row(op["rows"][0])
+            t.extend_rows([row] * len(op["rows"]))
+        else:
+            raise ValueError(how)
     elif n == "live_row_rep":
         t.get_row(op["y"], clone=False).repeated = op["k"]
     elif n == "live_cell_rep":
@@ -613,7 +651,7 @@ def apply_sut(sut: TableSUT, op, aux):
         raise ValueError(f"unknown op {n}")
 
 
-RAW_MUTATIONS = {"rstrip", "optimize_width", "transpose", "set_span", "del_span", "live_row_rep", "live_cell_rep"}
+RAW_MUTATIONS = {"rstrip", "optimize_width", "transpose", "set_span", "del_span", "live_row_rep", "live_cell_rep", "live_row_op", "extend_rows_odd"}
 
 
 def do_read(t, op):
@@ -908,6 +946,10 @@ def features(op, tv: xmlref.TableView) -> list:
         elif not any(e["e"] == "rep" for e in op["edits"]):
             f.add("rep_as_returned")
         f.add("push_" + op["push"])
+        if op.get("via"):
+            f.add("row_via_" + op["via"])
+        if any(e["e"] == "clear" for e in op["edits"]):
+            f.add("row_cleared")
     elif n == "cell_edit":
         cell_feats(op["c"]["x"], op["c"]["y"])
         if any(e["e"] == "rep" and e["k"] > 1 for e in op["edits"]):
